@@ -12,6 +12,13 @@ COMMON_NOTE = (
 )
 
 CHECKS = {
+    "C02": dict(
+        technique="bounded-exhaustive enumeration of first lines x TLS x header blocks x protocol orders through the real multiplexer, against a reference classifier; exhaustive 256-byte sniff on a live socketpair",
+        text="Every first line of the bounded field alphabet (1-4 fields, four separators, three terminators, near misses of every documented shape), on TLS and plaintext connections, "
+             "with every header block of the menu for HTTP-shaped lines, is classified by the real ProtocolMultiplexer under 19 protocol orders and in isolation per protocol; "
+             "totality, TLS strictness, agreement with the reference classifier, first-acceptor-wins and determinism are checked on each. All 256 first bytes x {context, none} go through the real wrap_socket on a socketpair.",
+        design_ref="DESIGN.md 3/C02",
+    ),
     "C03": dict(
         technique="bounded-exhaustive enumeration of request lines (E1) + explicit-state BFS over request histories (E4) on the implementation",
         text="Every request line of the bounded alphabet (wrappers x encodings x <=3-segment paths, edge selectors, raw first lines, both TLS states, both handler lists) "
